@@ -356,13 +356,26 @@ def r20_6(ctx):
         mutable = {c.func.value.id for c in walk_local(cfgp.node) if isinstance(c, ast.Call) and isinstance(c.func, ast.Attribute) and isinstance(c.func.value, ast.Name) and c.func.attr in ("append", "extend")}
         parts = concat_parts(_inl(crets[0].value, {k: v for k, v in _sdf(cfgp.node).items() if k not in mutable}))
         tmpl_ok = len(parts) == 2 and parts[0] == "[styles]\n" and isinstance(parts[1], tuple) and parts[1][1].startswith("'\\n'.join(")
-    item_ok = any(isinstance(x, ast.JoinedStr) and norm(x) == "f'{name} = {style}'" for x in walk_local(cfgp.node))
+    # one line per entry: `<name> = <style>` built from the two loop targets (f-string, str.format, %, concatenation alike)
+    item_ok = False
+    for x in walk_local(cfgp.node):
+        tgt_ = None
+        if isinstance(x, (ast.GeneratorExp, ast.ListComp)) and len(x.generators) == 1 and isinstance(x.generators[0].target, ast.Tuple) and len(x.generators[0].target.elts) == 2:
+            tgt_, elt_ = x.generators[0].target, x.elt
+        elif isinstance(x, ast.For) and isinstance(x.target, ast.Tuple) and len(x.target.elts) == 2 and len(x.body) == 1 and isinstance(x.body[0], ast.Expr) and isinstance(x.body[0].value, ast.Call) and x.body[0].value.args:
+            tgt_, elt_ = x.target, x.body[0].value.args[0]
+        if tgt_ is None:
+            continue
+        n_, s_ = (norm(e) for e in tgt_.elts)
+        if concat_parts(elt_) in ([("expr", n_), " = ", ("expr", s_)], [("expr", n_), " = ", ("expr", f"str({s_})")]):
+            item_ok = True
     ctx.check(tmpl_ok and item_ok, cfgp.fq, "config template", cfgp.where, "config writes a [styles] section of `name = style` lines", "Theme.config no longer emits `[styles]` + `name = str(style)` lines")
     gens = [x for x in walk_local(cfgp.node) if isinstance(x, (ast.GeneratorExp, ast.ListComp))]
-    okg = len(gens) == 1 and len(gens[0].generators) == 1 and not gens[0].generators[0].ifs and norm(gens[0].generators[0].iter) in ("sorted(self.styles.items())", "self.styles.items()")
+    _sd206 = {k: v for k, v in _sdf(cfgp.node).items()}
+    okg = len(gens) == 1 and len(gens[0].generators) == 1 and not gens[0].generators[0].ifs and norm(_inl(gens[0].generators[0].iter, _sd206)) in ("sorted(self.styles.items())", "self.styles.items()")
     if not gens:
         # loop form: for name, style in sorted(self.styles.items()): lines.append(f"{name} = {style}")  - one unconditional append per entry
-        loops = [x for x in walk_local(cfgp.node) if isinstance(x, ast.For) and norm(x.iter) in ("sorted(self.styles.items())", "self.styles.items()")]
+        loops = [x for x in walk_local(cfgp.node) if isinstance(x, ast.For) and norm(_inl(x.iter, _sd206)) in ("sorted(self.styles.items())", "self.styles.items()")]
         okg = len(loops) == 1 and len(loops[0].body) == 1 and isinstance(loops[0].body[0], ast.Expr) and isinstance(loops[0].body[0].value, ast.Call) and norm(loops[0].body[0].value.func).endswith(".append") and not loops[0].orelse
         gens = loops
     ctx.check(okg, cfgp.fq, short(gens[0]) if gens else "?", cfgp.where, "config lists every entry of self.styles (no filter)",
